@@ -7,6 +7,19 @@ and the pure row-decoding functions are evaluated by the checker's own interpret
 the extracted AST (`_Interp`; nothing from the repository is imported or run) on the finite
 table of field values the schedule format documents.
 
+The writers are read as one function over their parameters (`_writers_as_written_once`, before
+any rule runs): a generator function or method of the writer's module that one `for` loop of
+`_add_schedule` / `_add_flight` consumes runs in the place of that loop
+(astutil.splice_generator_loops; a function that only computes and returns the list of what it
+appends is read as its generator, astutil.accumulator_as_generator: one `yield <value>` written as a statement outside try / with,
+no `return`; `continue` in the consumer needs the yield to be the last thing the generator's loop
+body does, `break` needs that loop to be the generator's last statement; anything else is left
+alone), and a parameter that is a record object of the program (a @dataclass / NamedTuple that only
+stores its constructor arguments) read only by field, for which every call in the program passes
+a construction, is one parameter per field with the constructor's arguments passed at the call
+(`_dissolve_record_parameters`).  Values are followed through `a, b = <display>` and through
+components read off a written-out value (`(a, b)[1]`, `K(a, y=b).y` of a record class).
+
 R1  geodesic argument roles at the distance plausibility rule (T-ROLE); the distance is
     between origin and destination.  Every inverse-geodesic call that runs on behalf of
     `_distance_check` is examined - written there or in a function reached from it through
@@ -92,7 +105,17 @@ R6  expansion shape: inclusive daily pd.date_range over the two effective dates
     its arrival precedes its departure (the latter only with the warning) — decided on
     the guard *atoms* of every `continue`, of the append, and of every filter the dates
     pass through on the way to the loop (a filter is `if not c: continue`), whatever their
-    nesting; everything else is appended once and counted.  Row decoding (`from_csv_row`)
+    nesting (a `continue` has exactly one of the two reasons among its atoms; the others only
+    say the instance was not to be skipped for the other reason); everything else is appended
+    once and counted.  A `break` of the per-day loop is a violation whatever it is guarded by:
+    it drops every later date of the range.  The warning is recorded on the branch that drops
+    the instance, or *deferred* (`_deferred_report`): the branch sets a mark (flag set to a truthy
+    constant / `F = F or <arrival precedes departure>` / counter incremented / list or set grown)
+    that is falsy before the loop and never made falsy in it, and after the loop - no return, raise
+    or store to the mark in between - the warning is recorded under a test whose failing implies
+    the mark is falsy (`if F:`, `if n > 0:`, `if len(bad):`) or once per element (`for x in F:`).
+    A warning after the loop whose condition reads nothing the loop changes is no warning for
+    the dropped instance; one that cannot be related to a mark is undecided.  Row decoding (`from_csv_row`)
     evaluated on tables: all 128 weekday sets in both encodings, arrival-day codes
     'P'/blank/0/1/2, open-ended markers and YYYYMMDD dates, HHMM times, flight number,
     end-point roles.
@@ -117,8 +140,9 @@ import itertools
 import re
 from fractions import Fraction
 
-from ..astutil import (LOG_CALLS, ancestors, call_name, calls_in, conjuncts, const_value, guards_of, is_within, local_defs,
-                       names_in, norm, single_def_value, stmt_of, stores_to, walk_no_nested)
+from ..astutil import (LOG_CALLS, accumulator_as_generator, ancestors, call_name, calls_in, conjuncts, const_value, guards_of, is_within, local_defs,
+                       names_in, norm, set_parents, single_def_value, splice_generator_loops, stmt_of, stores_to, tuple_def_component,
+                       walk_no_nested)
 from ..cfg import CFG
 from ..loader import dotted_name, parent
 from ..resolve import resolve_call
@@ -201,14 +225,53 @@ def _subst(fn: ast.AST, e: ast.AST, _seen: frozenset = frozenset()) -> ast.AST:
         d = single_def_value(fn, e.id)
         if d is not None:
             return _subst(fn, d, _seen | {e.id})
+        tc = tuple_def_component(fn, e.id)
+        if tc is not None:
+            # `a, b, c = <tuple display>` (written there, or held by a local bound once to it): the component, when the
+            # display does not read what the unpacking binds
+            tgt = local_defs(fn, e.id)[0].targets[0]
+            names = {x.id for x in ast.walk(tgt) if isinstance(x, ast.Name)}
+            if not any(isinstance(x, ast.Starred) for x in tgt.elts) and all(isinstance(x, ast.Name) for x in tgt.elts):
+                r = _subst(fn, tc[0], _seen | names)
+                if isinstance(r, (ast.Tuple, ast.List)) and len(r.elts) == len(tgt.elts) \
+                        and not any(isinstance(x, ast.Starred) for x in r.elts) \
+                        and not any(isinstance(x, ast.Name) and x.id in names for x in ast.walk(r)):
+                    return r.elts[tc[1]]
         return _clone(e)
     if isinstance(e, ast.AST):
         new = _shell(e)
         for f in e._fields:
             setattr(new, f, _subst(fn, getattr(e, f, None), _seen))
-        return new
+        return _project(new)
     if isinstance(e, list):
         return [_subst(fn, x, _seen) for x in e]
+    return e
+
+
+# record classes of the program (a @dataclass / NamedTuple that only stores its constructor arguments), by the name they
+# are constructed under, when that name is unique in the program: name -> fields in order.  Filled by run().
+_RECORDS: dict[str, list[str]] = {}
+
+
+def _project(e):
+    """a component read off a value that is written out: `(a, b, c)[1]` is b, `K(a, y=b).y` of a record class K is b
+    (the other components are effect-free expressions: names, attributes, constants, arithmetic, calls are kept out)"""
+    if isinstance(e, ast.Subscript) and isinstance(e.value, (ast.Tuple, ast.List)) and isinstance(e.slice, ast.Constant) \
+            and type(e.slice.value) is int and not any(isinstance(x, ast.Starred) for x in e.value.elts) \
+            and -len(e.value.elts) <= e.slice.value < len(e.value.elts):
+        return e.value.elts[e.slice.value]
+    if isinstance(e, (ast.Attribute, ast.Subscript)) and isinstance(e.value, ast.Call) and isinstance(e.value.func, (ast.Name, ast.Attribute)):
+        c = e.value
+        fields = _RECORDS.get(c.func.id if isinstance(c.func, ast.Name) else c.func.attr)
+        if fields and not any(isinstance(a, ast.Starred) for a in c.args) and not any(k.arg is None for k in c.keywords) \
+                and len(c.args) <= len(fields):
+            amap = dict(zip(fields, c.args))
+            amap.update({k.arg: k.value for k in c.keywords})
+            key = e.attr if isinstance(e, ast.Attribute) else (
+                fields[e.slice.value] if isinstance(e.slice, ast.Constant) and type(e.slice.value) is int
+                and -len(fields) <= e.slice.value < len(fields) else None)
+            if key in amap:
+                return amap[key]
     return e
 
 
@@ -2296,7 +2359,8 @@ def _rule_r3(ctx, prog, add, flt, sch):
         fv = _stored_value(sym, sch, v, at)
         full[col] = fv
         cf = role_conflict(col, fv) or role_conflict(col, v)
-        toks = _tokens(col) & (_idents(v) | _idents(fv))
+        sing = lambda ts: {t[:-1] if t.endswith('s') and len(t) > 3 else t for t in ts}     # day / days: one role
+        toks = sing(_tokens(col)) & sing(_idents(v) | _idents(fv))
         ctx.ob('C13-R3', sch, f'schedules.{col} <- {norm(v)}', cf is None and bool(toks),
                'column and value agree in role' if cf is None and toks else (cf or f'value `{norm(v)}` shares no name with column {col}'),
                line=v.lineno)
@@ -2734,6 +2798,142 @@ def _rule_r5(ctx, prog, om, add):
                    line=n.lineno)
 
 
+def _stmt_list_of(st: ast.stmt):
+    """the statement list `st` is an element of, and the statement (or function) that owns the list"""
+    p = parent(st)
+    for f in ('body', 'orelse', 'finalbody'):
+        lst = getattr(p, f, None)
+        if isinstance(lst, list) and any(x is st for x in lst):
+            return lst, p
+    return None, p
+
+
+def _falsy_when(test: ast.expr, truth: bool, text: str) -> bool:
+    """the outcome `truth` of the test establishes that the flag / counter / list `text` is falsy (False, 0, empty)"""
+    if _empty_fact(test, truth, text):
+        return True
+    for e, p in conjuncts(test, truth):
+        if isinstance(e, ast.Compare) and len(e.ops) == 1:
+            l, r, op = norm(e.left), norm(e.comparators[0]), type(e.ops[0]).__name__
+            if r == text and l != text:
+                l, r, op = r, l, {'Lt': 'Gt', 'Gt': 'Lt', 'LtE': 'GtE', 'GtE': 'LtE'}.get(op, op)
+            if l == text:
+                falsy_when = {('Eq', '0'): True, ('NotEq', '0'): False, ('Gt', '0'): False, ('GtE', '1'): False, ('Lt', '1'): True,
+                              ('LtE', '0'): True, ('Is', 'True'): False, ('Eq', 'True'): False, ('IsNot', 'True'): True,
+                              ('Is', 'False'): True, ('Eq', 'False'): True, ('IsNot', 'False'): False, ('NotEq', 'False'): False,
+                              ('NotEq', 'True'): True}.get((op, r))
+                if falsy_when is not None and falsy_when == p:
+                    return True
+    return False
+
+
+def _falsy_init(e) -> bool:
+    return (isinstance(e, ast.Constant) and e.value in (False, 0, None)) or _fresh_empty(e) or \
+        (isinstance(e, ast.Call) and call_name(e) in ('set', 'dict') and not e.args and not e.keywords) or \
+        (isinstance(e, ast.Dict) and not e.keys)
+
+
+def _deferred_report(fn: ast.AST, loop: ast.stmt, drop: ast.stmt, reports: list, is_reason, inclusive: bool = False):
+    """The branch of `loop` that ends at `drop` (a `continue`) does not report by itself; it *marks* that it was taken, and the
+    report is made once, after the loop, whenever the mark is set.  Decided on the function as a whole:
+      - the mark F is falsy when the loop starts (`F = False` / `0` / `[]` / `set()` before the loop, the only binding outside it);
+      - on the way to `drop` F becomes truthy (`F = True`, `F += 1`, `F.append(x)` / `F.add(x)` in a statement list that
+        encloses `drop`, before it; or `F = F or <reason>` / `F |= <reason>` with the very condition the branch is taken on),
+        and nothing in the loop makes it falsy again (every store to F in the loop is of those forms);
+      - after the loop - in its statement list or, when the loop is the last statement of a `with` / `try` body, after that -
+        with no `return` / `raise` and no store to F in between, a report is made under `if <F is truthy>:` (any test whose
+        failing implies F is falsy) or once per element (`for x in F:`), and under nothing else.
+    -> the report call, or None"""
+    # candidate marks: statements before `drop` (or before a statement enclosing it) inside the loop
+    cands = [drop] if inclusive else []     # inclusive: `drop` is the last statement of a branch that just falls out
+    node = drop
+    while node is not loop and node is not None:
+        lst, owner = _stmt_list_of(node)
+        if lst is None:
+            break
+        for s_ in lst:
+            if s_ is node:
+                break
+            cands.append(s_)
+        node = owner
+    drop_guards = [(t, pol) for t, pol, _ in guards_of(drop, stop=loop)]
+
+    def mark_of(s_):
+        """name marked truthy by the statement, or None"""
+        if isinstance(s_, ast.Assign) and len(s_.targets) == 1 and isinstance(s_.targets[0], ast.Name):
+            f, v = s_.targets[0].id, s_.value
+            if isinstance(v, ast.Constant) and v.value is not None and bool(v.value):
+                return f
+            if isinstance(v, ast.BoolOp) and isinstance(v.op, ast.Or) and len(v.values) == 2 and norm(v.values[0]) == f \
+                    and is_reason(v.values[1]):
+                return f
+            if isinstance(v, ast.BinOp) and isinstance(v.op, (ast.BitOr, ast.Add)) and norm(v.left) == f and (
+                    is_reason(v.right) if isinstance(v.op, ast.BitOr) else
+                    isinstance(v.right, ast.Constant) and type(v.right.value) is int and v.right.value > 0):
+                return f
+        if isinstance(s_, ast.AugAssign) and isinstance(s_.target, ast.Name):
+            if isinstance(s_.op, ast.Add) and isinstance(s_.value, ast.Constant) and type(s_.value.value) in (int, bool) \
+                    and s_.value.value > 0:
+                return s_.target.id
+            if isinstance(s_.op, ast.BitOr) and (is_reason(s_.value) or (isinstance(s_.value, ast.Constant) and s_.value.value is True)):
+                return s_.target.id
+        if isinstance(s_, ast.Expr) and isinstance(s_.value, ast.Call) and isinstance(s_.value.func, ast.Attribute) \
+                and s_.value.func.attr in ('append', 'add') and isinstance(s_.value.func.value, ast.Name) and len(s_.value.args) == 1:
+            return s_.value.func.value.id
+        return None
+
+    for m in cands:
+        f = mark_of(m)
+        if f is None:
+            continue
+        # a mark written under a condition of its own (other than the drop's) does not cover every dropped instance
+        mg = [(norm(t), pol) for t, pol, _ in guards_of(m, stop=loop)]
+        if any(g not in [(norm(t), pol) for t, pol in drop_guards] for g in mg):
+            continue
+        defs = local_defs(fn, f)
+        outside = [d for d in defs if not is_within(d, loop)]
+        inside = [d for d in defs if is_within(d, loop)]
+        if len(outside) != 1 or not isinstance(outside[0], (ast.Assign, ast.AnnAssign)) or outside[0].value is None \
+                or not _falsy_init(outside[0].value) or outside[0].lineno >= loop.lineno:
+            continue
+        if isinstance(outside[0], ast.Assign) and not (len(outside[0].targets) == 1 and isinstance(outside[0].targets[0], ast.Name)):
+            continue
+        if any(mark_of(d) != f for d in inside):
+            continue
+        if any(isinstance(x, ast.Call) and isinstance(x.func, ast.Attribute) and norm(x.func.value) == f
+               and x.func.attr in ('clear', 'pop', 'remove', 'discard') for x in walk_no_nested(fn)):
+            continue
+        # the report after the loop
+        node = loop
+        while node is not None and not isinstance(node, (ast.FunctionDef, ast.AsyncFunctionDef)):
+            lst, owner = _stmt_list_of(node)
+            if lst is None:
+                break
+            idx = next(i for i, x in enumerate(lst) if x is node)
+            for s_ in lst[idx + 1:]:
+                if isinstance(s_, ast.If) and _falsy_when(s_.test, False, f):
+                    for w in reports:
+                        if is_within(w, s_) and [o for _, pol, o in guards_of(w)] == [s_] and any(stmt_of(w) is x for x in s_.body) \
+                                and not any(isinstance(x, (ast.Return, ast.Raise)) for b in s_.body[:s_.body.index(stmt_of(w))]
+                                            for x in walk_no_nested(b)):
+                            return w
+                if isinstance(s_, ast.For) and norm(s_.iter) == f:
+                    for w in reports:
+                        if is_within(w, s_) and not guards_of(w) and any(stmt_of(w) is x for x in s_.body):
+                            return w
+                if any(isinstance(x, (ast.Return, ast.Raise)) for x in walk_no_nested(s_)) or local_defs(s_, f):
+                    node = None
+                    break
+            else:
+                if isinstance(owner, (ast.With, ast.AsyncWith)) or (isinstance(owner, ast.Try) and lst is owner.body and not owner.orelse):
+                    node = owner
+                    continue
+                node = None
+            if node is None:
+                break
+    return None
+
+
 def _rule_r6(ctx, prog, om, wm, sch):
     c, loop, loopvar = _date_loop(prog, sch)
     if c is None or loop is None:
@@ -2835,19 +3035,39 @@ def _rule_r6(ctx, prog, om, wm, sch):
                        'instance)' if k != ('weekday', False) else
                        'the filter on the dates keeps the days that are NOT operating days of the flight', line=node.lineno)
     warn_fi = wm.functions.get('WritableDatabase._warn')
-    warns = [w for w in calls_in(loop) if (warn_fi is not None and resolve_call(prog, sch, w) == warn_fi or 'warn' in _tokens(call_name(w)))
-             and any(norm(a).endswith('TIME_MISORDERING') for a in list(w.args) + [k.value for k in w.keywords])]
+    warns_all = [w for w in calls_in(sch.node) if (warn_fi is not None and resolve_call(prog, sch, w) == warn_fi or 'warn' in _tokens(call_name(w)))
+                 and any(norm(a).endswith('TIME_MISORDERING') for a in list(w.args) + [k.value for k in w.keywords])]
+    warns = [w for w in warns_all if is_within(w, loop)]
+    drops = []
     for n in conts:
         ks = kinds(n)
-        if isinstance(n, ast.Break) or len(ks) != 1 or ks[0][0] not in (('weekday', False), ('misordered', True)):
+        if isinstance(n, ast.Break):
+            why = [k for k in ks if k[0] in (('weekday', False), ('misordered', True))]
+            ctx.ob('C13-R6', sch, f'per-day loop left by `break` under {[(k[1], k[2]) for k in ks]}', False,
+                   'the loop over the dates of the effective range is *ended* (`break`)' +
+                   (f' at the first date that is {"not an operating day" if why[0][0][0] == "weekday" else "mis-ordered"}, where only '
+                    'that one instance is to be skipped (`continue`)' if why else '') +
+                   ': every later operating date of the row gets no instance (only a non-operating weekday, or an arrival that '
+                   'precedes the departure, drops an instance - that instance, not the rest of the range)', line=n.lineno)
+            if why:
+                seen.add(why[0][0][0])
+                if why[0][0][0] == 'misordered':
+                    drops.append(n)
+            continue
+        # the instance is skipped for exactly one of the two reasons; what else the `continue` is nested in only says that
+        # the instance was not (yet) to be skipped for the other one
+        reasons = [k for k in ks if k[0] in (('weekday', False), ('misordered', True))]
+        if len(reasons) != 1 or any(k[0] not in (('weekday', True), ('misordered', False)) for k in ks if k is not reasons[0]):
             ctx.ob('C13-R6', sch, f'instance skipped under {[(k[1], k[2]) for k in ks]}', False,
                    'an instance inside the effective range on an operating day is skipped for another reason '
                    '(only a non-operating weekday, or an arrival that precedes the departure, drops an instance)',
                    line=n.lineno)
             continue
-        seen.add(ks[0][0][0])
-        if ks[0][0][0] == 'weekday':
-            ctx.ob('C13-R6', sch, 'skip when the weekday is not an operating day', True, ks[0][1], line=n.lineno)
+        seen.add(reasons[0][0][0])
+        if reasons[0][0][0] == 'weekday':
+            ctx.ob('C13-R6', sch, 'skip when the weekday is not an operating day', True, reasons[0][1], line=n.lineno)
+        else:
+            drops.append(n)
     for a_ in apps:
         ks = kinds(a_)
         unknown = [k for k in ks if k[0] not in (('weekday', True), ('misordered', False))]
@@ -2865,9 +3085,35 @@ def _rule_r6(ctx, prog, om, wm, sch):
     if 'misordered' in seen:
         good = [w for w in warns if ('misordered', True) in [k[0] for k in kinds(w)]
                 and all(k[0] in (('misordered', True), ('weekday', True)) for k in kinds(w))]
+        how = 'warning recorded on the branch that drops the instance'
+        outside = [w for w in warns_all if not is_within(w, loop)]
+        # a warning after the loop whose condition reads nothing the loop changes cannot tell whether an instance was dropped
+        changed = {nm for t_, _, _ in stores_to(loop) for nm in names_in(t_)} | \
+            {x.func.value.id for x in calls_in(loop) if isinstance(x.func, ast.Attribute) and isinstance(x.func.value, ast.Name)}
+        outside = [w for w in outside if any(names_in(t_) & changed for t_, _, _ in guards_of(w))
+                   or any(isinstance(a_, ast.For) and names_in(a_.iter) & changed for a_ in ancestors(w))]
+        if not good and not drops:
+            # no `continue`: the instance is appended on one branch of a test of the order, the other branch falls out
+            for a_ in apps:
+                for t_, pol_, owner in guards_of(a_, stop=loop):
+                    if isinstance(owner, ast.If) and atom_kind(t_, pol_) == ('misordered', False):
+                        other = owner.orelse if pol_ else owner.body
+                        if other:
+                            drops.append(other[-1])
+        if not good and outside:
+            # the branch only marks that it was taken; the warning (one per input line is kept anyway) is recorded after the loop
+            later = [_deferred_report(sch.node, loop, n, outside, lambda t: atom_kind(t, True) == ('misordered', True),
+                                      inclusive=not isinstance(n, (ast.Continue, ast.Break))) for n in drops]
+            if later and all(w is not None for w in later):
+                good = later
+                how = 'the branch that drops the instance marks it, and the warning is recorded after the loop whenever the mark is set'
+            else:
+                ctx.undecided('C13-R6', sch, 'mis-ordered instance dropped only with a warning',
+                              'a TIME_MISORDERING warning is recorded outside the per-day loop, but that it is recorded whenever '
+                              'an instance was dropped is not decided (no mark that is falsy before the loop, set on the dropping '
+                              'branch and tested alone right after the loop)')
         ctx.ob('C13-R6', sch, 'mis-ordered instance dropped only with a warning', bool(good),
-               'warning recorded on the branch that drops the instance' if good else 'instance dropped silently',
-               line=(good[0].lineno if good else loop.lineno))
+               how if good else 'instance dropped silently', line=(good[0].lineno if good else loop.lineno))
     tm = prog.module('types/time.py')
     r = [n for n in walk_no_nested(from_pandas.node) if isinstance(n, ast.Return)]
     p = from_pandas.params[-1]
@@ -3142,6 +3388,238 @@ def _rule_r8(ctx, prog):
                'rows with an IATA code are skipped', line=lp.lineno)
 
 
+# ----------------------------------------------------------------------------------------------------
+# the writers as one function each: generators consumed in place, state objects dissolved
+# ----------------------------------------------------------------------------------------------------
+
+def _derived_state(ci):
+    """`__post_init__` of a dataclass that only derives further attributes from the fields - every statement is
+    `self.<d> = <expression>` with d not a field, stored once and nowhere else in the class - -> {d: expression over
+    `self`}; {} without a `__post_init__`; None when it does anything else"""
+    pi = ci.methods.get('__post_init__')
+    if pi is None:
+        return {}
+    a = pi.node.args
+    if len(a.args) != 1 or a.vararg or a.kwarg or a.kwonlyargs or a.posonlyargs:
+        return None
+    me, fields, out = a.args[0].arg, set(ci.annotated_fields()), {}
+    for st in real_body_(pi.node.body):
+        if not (isinstance(st, ast.Assign) and len(st.targets) == 1 and isinstance(st.targets[0], ast.Attribute)
+                and isinstance(st.targets[0].value, ast.Name) and st.targets[0].value.id == me):
+            return None
+        d = st.targets[0].attr
+        if d in fields or d in out or any(isinstance(x, (ast.NamedExpr, ast.Await, ast.Yield, ast.Lambda)) for x in ast.walk(st.value)):
+            return None
+        out[d] = st.value
+    for x in ast.walk(ci.node):
+        if isinstance(x, ast.Attribute) and isinstance(x.ctx, (ast.Store, ast.Del)) and x.attr in out and not is_within(x, pi.node):
+            return None
+    return out
+
+
+def real_body_(body):
+    return [s_ for s_ in body if not (isinstance(s_, ast.Expr) and isinstance(s_.value, ast.Constant)) and not isinstance(s_, ast.Pass)]
+
+
+def _is_record_class(ci, derived: bool = False) -> bool:
+    """a @dataclass / NamedTuple of the program whose construction only stores its arguments (no __init__ / __post_init__ /
+    __new__, no field(default_factory=...) defaults, no bases of the program)"""
+    if ci is None or ci.bases:
+        return False
+    deco = [d.split('(')[0].split('.')[-1] for d in ci.decorators()] if hasattr(ci, 'decorators') else \
+        [norm(d).split('(')[0].split('.')[-1] for d in ci.node.decorator_list]
+    named = any(b.split('.')[-1] == 'NamedTuple' for b in ci.base_exprs)
+    if not (deco == ['dataclass'] and not ci.base_exprs or named and not deco):
+        return False
+    if any(m in ci.methods for m in ('__init__', '__new__', '__setattr__', '__getattr__', '__getattribute__')):
+        return False
+    if '__post_init__' in ci.methods and not (derived and not named and _derived_state(ci)):
+        return False
+    for s_ in ci.node.body:
+        if isinstance(s_, ast.AnnAssign) and s_.value is not None and isinstance(s_.value, ast.Call):
+            return False
+        if isinstance(s_, ast.Assign):
+            return False
+    return bool(ci.annotated_fields())
+
+
+def _record_arguments(ci, c: ast.Call):
+    """field -> argument expression of a construction `K(...)` of a record class, in field order; None when not explicit"""
+    fields = list(ci.annotated_fields())
+    if any(isinstance(a, ast.Starred) for a in c.args) or any(k.arg is None for k in c.keywords) or len(c.args) > len(fields):
+        return None
+    out = dict(zip(fields, c.args))
+    for k in c.keywords:
+        if k.arg in out or k.arg not in fields:
+            return None
+        out[k.arg] = k.value
+    dflt = ci.class_assignments()
+    for f in fields:
+        if f not in out:
+            if dflt.get(f) is None:
+                return None
+            out[f] = dflt[f]
+    return {f: out[f] for f in fields}
+
+
+def _dissolve_record_parameters(prog, fi) -> list[str]:
+    """A parameter of `fi` that is a record object of the program (annotated with a @dataclass / NamedTuple class that
+    only stores its constructor arguments), of which `fi` reads fields and nothing else, and for which every call of `fi`
+    in the program passes a construction `K(...)` - written at the call or held by a local bound once to it and used for
+    nothing else - is one parameter per field: `p.f` reads the parameter `f`, the calls pass the constructor's arguments
+    (effect-free expressions) in field order.  Changes `fi` and its callers in place; all-or-nothing per parameter.
+    -> the parameters dissolved"""
+    from ..resolve import _ann_class, callers_of, resolve_class_call
+    done = []
+    for arg in list(fi.node.args.args):
+        ci = _ann_class(prog, fi.module, arg.annotation) if arg.annotation is not None else None
+        if not _is_record_class(ci, derived=True):
+            continue
+        p = arg.arg
+        fields = list(ci.annotated_fields())
+        # attributes the object derives from its fields when it is built (`__post_init__`: self.d = <expression>) are
+        # that expression of the fields wherever they are read
+        state = _derived_state(ci) or {}
+        for _ in range(4):
+            reads = [x for x in ast.walk(fi.node) if isinstance(x, ast.Attribute) and isinstance(x.ctx, ast.Load)
+                     and isinstance(x.value, ast.Name) and x.value.id == p and x.attr in state]
+            if not reads:
+                break
+            me = ci.methods['__post_init__'].node.args.args[0].arg
+            for x in reads:
+                new = _clone(state[x.attr])
+                for n_ in ast.walk(new):
+                    if isinstance(n_, ast.Name) and n_.id == me:
+                        n_.id = p
+                new = ast.copy_location(new, x)
+                pa = parent(x)
+                for f_, val in ast.iter_fields(pa):
+                    if val is x:
+                        setattr(pa, f_, new)
+                    elif isinstance(val, list):
+                        for j, e_ in enumerate(val):
+                            if e_ is x:
+                                val[j] = new
+            ast.fix_missing_locations(fi.node)
+            set_parents(fi.node)
+        uses = [x for x in ast.walk(fi.node) if isinstance(x, ast.Name) and x.id == p]
+        if not uses or any(not (isinstance(parent(x), ast.Attribute) and parent(x).value is x and isinstance(parent(x).ctx, ast.Load)
+                                and parent(x).attr in fields and isinstance(x.ctx, ast.Load)) for x in uses):
+            continue
+        taken = {x.id for x in ast.walk(fi.node) if isinstance(x, ast.Name)} | {a.arg for a in ast.walk(fi.node) if isinstance(a, ast.arg)}
+        if any(f in taken for f in fields):
+            continue
+        sites = callers_of(prog, fi)
+        plans = []
+        for caller, c in sites:
+            if any(isinstance(a, ast.Starred) for a in c.args) or any(k.arg is None for k in c.keywords):
+                plans = None
+                break
+            pos = [a.arg for a in fi.node.args.args]
+            off = 1 if fi.cls is not None and pos and pos[0] in ('self', 'cls') and isinstance(c.func, ast.Attribute) else 0
+            idx = pos.index(p) - off
+            kw = next((k for k in c.keywords if k.arg == p), None)
+            val = c.args[idx] if 0 <= idx < len(c.args) else (kw.value if kw is not None else None)
+            drop = None
+            if isinstance(val, ast.Name):
+                d = single_def_value(caller.node, val.id)
+                reads = [x for x in ast.walk(caller.node) if isinstance(x, ast.Name) and x.id == val.id and isinstance(x.ctx, ast.Load)]
+                if d is None or len(reads) != 1 or val.id in caller.params:
+                    plans = None
+                    break
+                drop, val = stmt_of(d), d
+            if not isinstance(val, ast.Call) or resolve_class_call(prog, caller, val) is not ci:
+                plans = None
+                break
+            amap = _record_arguments(ci, val)
+            if amap is None or any(isinstance(x, (ast.Call, ast.Await, ast.Yield, ast.NamedExpr)) for v in amap.values() for x in ast.walk(v)):
+                plans = None
+                break
+            if drop is not None:
+                # the arguments mean at the call what they meant at the construction
+                between = {t_.id for t_, st, _ in stores_to(caller.node) if isinstance(t_, ast.Name)
+                           and drop.lineno < st.lineno <= c.lineno}
+                if any(n_ in between for v in amap.values() for n_ in names_in(v)):
+                    plans = None
+                    break
+            plans.append((caller, c, idx, kw, amap, drop))
+        if not plans:
+            continue
+        for caller, c, idx, kw, amap, drop in plans:
+            vals = [amap[f] for f in fields]
+            if kw is None:
+                c.args[idx:idx + 1] = vals
+            else:
+                i = c.keywords.index(kw)
+                c.keywords[i:i + 1] = [ast.keyword(arg=f, value=v) for f, v in zip(fields, vals)]
+            if drop is not None:
+                lst, _ = _stmt_list_of(drop)
+                if lst is not None:
+                    lst[:] = [x for x in lst if x is not drop] or [ast.copy_location(ast.Pass(), drop)]
+            ast.fix_missing_locations(caller.node)
+            set_parents(caller.node)
+        ann = ci.annotated_fields()
+        i = fi.node.args.args.index(arg)
+        fi.node.args.args[i:i + 1] = [ast.copy_location(ast.arg(arg=f, annotation=ann[f]), arg) for f in fields]
+        nd = len(fi.node.args.defaults)
+        if nd and i >= len(fi.node.args.args) - len(fields) + 1 - nd:
+            pass  # a defaulted record parameter is never dissolved: it has a construction at every call (checked above)
+        for x in uses:
+            a_ = parent(x)
+            new = ast.copy_location(ast.Name(id=a_.attr, ctx=ast.Load()), a_)
+            pa = parent(a_)
+            for f_, val in ast.iter_fields(pa):
+                if val is a_:
+                    setattr(pa, f_, new)
+                elif isinstance(val, list):
+                    for j, e_ in enumerate(val):
+                        if e_ is a_:
+                            val[j] = new
+        ast.fix_missing_locations(fi.node)
+        set_parents(fi.node)
+        done.append(p)
+    return done
+
+
+def _writers_as_written_once(prog, fns) -> list[str]:
+    """The rules below read each writer as *one function over its parameters*.  A pull request that gathers the values of
+    a flight's operating pattern in a state object (a dataclass built by the importer and handed to the writer) and turns
+    the writer's loop into a generator method of that object computes the same thing in three places; this puts it back
+    into one: a generator of the writer's own module consumed by one `for` loop of the writer runs in the place of that
+    loop (astutil.splice_generator_loops), and a record parameter that is only read by field is one parameter per field
+    (`_dissolve_record_parameters`).  Nothing is assumed about what the pieces are called; what cannot be put back
+    faithfully is left as it is (and the rules then say what they cannot follow)."""
+    notes = []
+    for fi in fns:
+        def resolve(call, fi=fi):
+            try:
+                r = resolve_call(prog, fi, call)
+            except Exception:
+                return None
+            if r is None or r.module is not fi.module or r == fi:
+                return None
+            deco = [norm(d) for d in r.node.decorator_list]
+            if deco not in ([], ['staticmethod']):
+                return None
+            recv = None
+            if r.cls is not None and not deco:
+                if not isinstance(call.func, ast.Attribute) or not isinstance(call.func.value, ast.Name):
+                    return None
+                recv = call.func.value
+            node = r.node
+            if not any(isinstance(x, ast.Yield) for x in walk_no_nested(node)):
+                # a function that returns the list of what it appends is, for the loop that consumes it, its generator
+                node = accumulator_as_generator(node)
+                if node is None:
+                    return None
+            return node, r.qualname, recv
+        for tag in splice_generator_loops(fi.node, resolve):
+            notes.append(f'{fi.qualname}: generator {tag} consumed in place')
+        for p in _dissolve_record_parameters(prog, fi):
+            notes.append(f'{fi.qualname}: record parameter {p} dissolved')
+    return notes
+
+
 def run(ctx):
     prog = ctx.prog
     om = prog.module(OAG)
@@ -3150,6 +3628,16 @@ def run(ctx):
     sch = wm.func('WritableDatabase._add_schedule')
     flt = wm.func('WritableDatabase._add_flight')
     dck = wm.func('WritableDatabase._distance_check')
+    _writers_as_written_once(prog, [sch, flt])
+    _RECORDS.clear()
+    seen_names: dict[str, int] = {}
+    for m in prog.modules.values():
+        for ci in m.classes.values():
+            seen_names[ci.name.split('.')[-1]] = seen_names.get(ci.name.split('.')[-1], 0) + 1
+    for m in prog.modules.values():
+        for ci in m.classes.values():
+            if seen_names[ci.name.split('.')[-1]] == 1 and _is_record_class(ci):
+                _RECORDS[ci.name.split('.')[-1]] = list(ci.annotated_fields())
     _rule_r1(ctx, prog, dck)
     _rule_r2(ctx, prog, add, flt, sch)
     _rule_r3(ctx, prog, add, flt, sch)
